@@ -135,7 +135,8 @@ theorem C13_roundtrip_sample (pol : Model.Lexer.Policy) :
     · intro f hf
       simp only [List.mem_singleton] at hf
       subst hf
-      refine ⟨_, _, rfl, hcode _ (by decide), ?_⟩
+      simp only [frameR, framesR, true_and]
+      refine ⟨hcode _ (by decide), ?_⟩
       intro l hl
       simp only [List.mem_singleton] at hl
       subst hl
@@ -174,7 +175,7 @@ theorem C13_roundtrip_sample (pol : Model.Lexer.Policy) :
           simp only [valueR, numR, numbOk, strOk]
           decide
   have hN : blocksN C13Doc.opts11 C13Doc.sample [] := by
-    simp [C13Doc.sample, blocksN, framesN, loopsN, scalarOnce, scalarsN, seenScalars, isScalars]
+    simp [C13Doc.sample, blocksN, framesN, frameN, wcode, loopsN, scalarOnce, scalarsN, seenScalars, isScalars]
     decide
   have hok : (match writeCif 1 C13Doc.sample with | .ok _ => true | .error _ => false) = true := by decide +kernel
   cases h : writeCif 1 C13Doc.sample with
